@@ -184,3 +184,15 @@ _pb("C10", "contract-based deductive verification (pyvc) of transitions.topdown 
     "children or a binary node lacks head marks. That replaying rebuilds the tree, and the in-order and gap systems, are bounded "
     "only.",
     "proof of the shape of the top-down sequence, replay soundness bounded; 'other'")
+
+_pb("C06", "contract-based deductive verification (pyvc) of the counting block of grammar.extract as a block contract (one occurrence added, nothing else changed); bounded stand-in (instantiate-and-compare oracle, reference grammar) for the extracted rules",
+    "The counting block of extract adds exactly one occurrence to the entry (rule, linearization, vertical context) and "
+    "changes no other entry (block contract on the real statements over an arbitrary nested dict). Which rule is counted "
+    "-- labels in order of leftmost token, linearization, fan-outs, vertical context -- is bounded only.",
+    "block contract proved, the extracted rules bounded; 'other'")
+_pb("C08", "contract-based deductive verification (pyvc) of the five counting blocks of binarize_rule and extract as block contracts (count = previous count + amount, no other entry changes); bounded stand-in for the conservation equations",
+    "Each of the four counting blocks of binarize_rule and the one of extract is located in the real AST and proved on an "
+    "arbitrary nested dict: afterwards the entry holds its previous count (0 if absent) plus the amount and no other entry "
+    "has changed -- the 'sum, never only the last one seen' clause of the property (this obligation fails with a counter-model on "
+    "the pre-fix code). The conservation equations over whole grammars are bounded only.",
+    "block contracts proved, conservation equations bounded; 'other'")
